@@ -556,3 +556,40 @@ func Run(prefix []int, horizon int, quick bool, body func()) *Exec {
 	X = nil
 	return x
 }
+
+// othersIdle is the predicate of WaitIdle.
+type othersIdle struct {
+	x  *Exec
+	me int
+}
+
+//go:norace
+func (w *othersIdle) Ready() bool {
+	for i := 0; i < w.x.nthr; i++ {
+		if i != w.me && w.x.enabled(&w.x.threads[i]) {
+			return false
+		}
+	}
+	return true
+}
+
+// WaitIdle parks the caller until no other thread is enabled (every other thread has finished or is
+// blocked, e.g. a janitor waiting for its next tick). Timers that have not fired do not count. At most
+// one thread may use it at a time.
+//
+//go:norace
+func WaitIdle() {
+	x := X
+	if x == nil || x.aborting {
+		return
+	}
+	Wait("WaitIdle", &othersIdle{x, x.cur})
+}
+
+// ThreadDone reports whether thread id of the running execution has finished.
+//
+//go:norace
+func ThreadDone(id int) bool {
+	x := X
+	return x != nil && id < x.nthr && x.threads[id].status == 2
+}
